@@ -160,7 +160,24 @@ func (c01) Eval(c *Chooser, env *Env) *Outcome {
 	case 3:
 		flags = append(flags, "-format", "{{range $ := .}}{{$.Filepath}}:{{$.Line}}:{{$.Column}}:{{$.Snippet}}\n{{end}}")
 	}
-	flags = append(flags, "-no-color", "-shellcheck=", "-pyflakes=")
+	// a third of the worlds have the integrations enabled, with working or broken tools
+	toolsDesc := ""
+	if c.Weighted("world.tools", 1, 3) {
+		tm := &Tools{Broken: map[string]ToolFault{}}
+		kinds := []ToolFault{TFNone, TFNonzeroEmpty, TFCannotStart, TFKilled, TFGarbage, TFEmptyOK}
+		if k := kinds[c.Int("fault.shellcheck", len(kinds))]; k != TFNone {
+			tm.Broken["shellcheck"] = k
+			toolsDesc += "shellcheck=" + string(k) + " "
+		}
+		if k := kinds[c.Int("fault.pyflakes", 4)]; k != TFNone {
+			tm.Broken["pyflakes"] = k
+			toolsDesc += "pyflakes=" + string(k) + " "
+		}
+		w.Tools = tm
+		flags = append(flags, "-no-color")
+	} else {
+		flags = append(flags, "-no-color", "-shellcheck=", "-pyflakes=")
+	}
 	explicitCfg := ""
 	var stdin *faultyReader
 	switch mode {
@@ -188,6 +205,9 @@ func (c01) Eval(c *Chooser, env *Env) *Outcome {
 	mustFatal := ""
 	mustIdx := -1
 	var desc []string
+	if toolsDesc != "" {
+		desc = append(desc, "tools: "+strings.TrimSpace(toolsDesc))
+	}
 	targets := append(append(append([]string{}, wfs...), callees...), cfgs...)
 	sort.Strings(targets)
 	for i := 0; i < nf && len(targets) > 0; i++ {
